@@ -17,6 +17,12 @@ macro_rules! scalar_op {
 pub fn dispatch(op: &str, a: &[&str]) -> Option<String> {
     Some(match op {
         "u.add" => ok(res_u(&(&arg_u(a[0]) + &arg_u(a[1])))),
+        // `x += &y` exactly as written (self may be SHORTER than other: the extend + tail-carry path)
+        "u.add_assign" => {
+            let mut x = arg_u(a[0]);
+            x += &arg_u(a[1]);
+            ok(res_u(&x))
+        }
         "u.sub" => ok(res_u(&(arg_u(a[0]) - &arg_u(a[1])))),
         "u.sub_ref_val" => ok(res_u(&(&arg_u(a[0]) - arg_u(a[1])))),
         "u.checked_sub" => opt(arg_u(a[0]).checked_sub(&arg_u(a[1])), |r| ok(res_u(r))),
